@@ -36,10 +36,18 @@ func (p *BinaryProtocol) SkipNative(fieldType Type, maxDepth int) (err error) {
 	}
 	fsm := types.NewTStateMachine()
 	ret := native.TBSkip(fsm, &p.Buf[p.Read], left, uint8(fieldType))
+	types.FreeTStateMachine(fsm)
 	if ret < 0 {
-		return
+		// the negative error codes of native/thrift_skip.c
+		switch ret {
+		case -1: // ETAG
+			return errInvalidDataType
+		case -3: // ESTACK
+			return errExceedDepthLimit
+		default: // EEOF
+			return io.EOF
+		}
 	}
 	p.Read += int(ret)
-	types.FreeTStateMachine(fsm)
 	return nil
 }
